@@ -87,6 +87,9 @@ type (
 		options             *Options
 
 		ident string
+		// a PARALLEL join evaluates its ON condition in several goroutines, each of which may
+		// leave work for later (EXISTS does): the list is appended to under this lock
+		postProcessorsMut sync.Mutex
 	}
 	ExprOption func(*ExpressionReaderOptions)
 )
@@ -485,7 +488,7 @@ func BuildJoin(query *Query, joinExpr *sqlparser.JoinTableExpr) error {
 	// for, post-processors that put their results in place): the joining query takes it over
 	for _, side := range []*Query{left, right} {
 		side := side
-		query.postProcessors = append(query.postProcessors, side.postProcessors[inherited:]...)
+		query.later(side.postProcessors[inherited:]...)
 		query.wg.Add(1)
 		go func() {
 			side.wg.Wait()
@@ -621,7 +624,7 @@ func BuildFromAliasedTable(query *Query, as string, expr sqlparser.SimpleTableEx
 			if err != nil {
 				return err
 			}
-			query.postProcessors = append(query.postProcessors, subquery.postProcessors...)
+			query.later(subquery.postProcessors...)
 			query.wg.Add(1)
 			go func() {
 				subquery.wg.Wait()
@@ -1293,7 +1296,7 @@ func SelectExpr(query *Query, current Map, expr *sqlparser.SelectExprs, opts ...
 							continue
 						}
 					}
-					query.postProcessors = append(query.postProcessors, func() error {
+					query.later(func() error {
 						delete(data, "<-")
 						return nil
 					})
@@ -1333,7 +1336,7 @@ func SelectExpr(query *Query, current Map, expr *sqlparser.SelectExprs, opts ...
 				// Async functions return pointers
 				// It's a good idea to convert them back to value types
 				if valueRaw, ok := valueRaw.(*any); ok {
-					query.postProcessors = append(query.postProcessors, func() error {
+					query.later(func() error {
 						if err != nil {
 							return err
 						}
@@ -1361,7 +1364,7 @@ func SelectExpr(query *Query, current Map, expr *sqlparser.SelectExprs, opts ...
 func SubqueryExpr(query *Query, current Map, expr *sqlparser.Subquery, opts ...ExprOption) (any, error) {
 	// Backward Navigation
 	current = backwardNavigation(query, current)
-	query.postProcessors = append(query.postProcessors, func() error {
+	query.later(func() error {
 		delete(current, "<-")
 		return nil
 	})
@@ -1378,7 +1381,7 @@ func SubqueryExpr(query *Query, current Map, expr *sqlparser.Subquery, opts ...E
 	if err != nil {
 		return nil, err
 	}
-	query.postProcessors = append(query.postProcessors, subQuery.postProcessors...)
+	query.later(subQuery.postProcessors...)
 	return rs, nil
 }
 
@@ -1421,7 +1424,7 @@ func CaseExpr(query *Query, current Map, expr *sqlparser.CaseExpr, opts ...ExprO
 func ExistExpr(query *Query, current Map, expr *sqlparser.ExistsExpr, opts ...ExprOption) (bool, error) {
 	// Backward Navigation
 	current = backwardNavigation(query, current)
-	query.postProcessors = append(query.postProcessors, func() error {
+	query.later(func() error {
 		delete(current, "<-")
 		return nil
 	})
@@ -1452,7 +1455,7 @@ func ExistExpr(query *Query, current Map, expr *sqlparser.ExistsExpr, opts ...Ex
 	if !ok {
 		return false, INVALID_TYPE.Extend(fmt.Sprintf("failed to build `EXIST` expression. expected an array but found %T", array))
 	}
-	query.postProcessors = append(query.postProcessors, q.postProcessors...)
+	query.later(q.postProcessors...)
 	query.wg.Add(1)
 	go func() {
 		q.wg.Wait()
@@ -1467,7 +1470,7 @@ func FunExpr(query *Query, current Map, expr *sqlparser.FuncExpr, opts ...ExprOp
 	if name == "await" {
 		var rs any
 		var err error
-		query.postProcessors = append(query.postProcessors, func() error {
+		query.later(func() error {
 			slice, e := FuncArgReader(query, current, expr.Exprs)
 			if e != nil {
 				err = e
@@ -1973,7 +1976,7 @@ func (query *Query) exec() (result any, err error) {
 				rs, err := copy.exec()
 				// an inner array is evaluated by a copy of the query: the pending work the copy is left
 				// with (ASYNC calls to wait for, post-processors that put their results in place) is the query's
-				query.postProcessors = append(query.postProcessors, copy.postProcessors[inherited:]...)
+				query.later(copy.postProcessors[inherited:]...)
 				query.wg.Add(1)
 				go func() {
 					copy.wg.Wait()
@@ -2126,6 +2129,13 @@ func Import(functions map[string]func([]any) (any, error)) {
 	for name, function := range functions {
 		RegisterExternalFunction(name, function)
 	}
+}
+
+// later leaves work to be done once the rows are complete
+func (query *Query) later(postProcessors ...func() error) {
+	query.postProcessorsMut.Lock()
+	defer query.postProcessorsMut.Unlock()
+	query.postProcessors = append(query.postProcessors, postProcessors...)
 }
 
 func CopyQuery(query *Query) *Query {
